@@ -444,6 +444,16 @@ func dimacsText(r *world.Rng, n int, cl [][]int, lineBased bool) string {
 // ---- C01 / C06 ------------------------------------------------------------------
 
 func genC01(r *world.Rng, w *world.World, big bool, certAlways bool) {
+	if r.Bool(0.0002) {
+		// soak: a few instances far beyond any oracle, with the shipped constants - thousands of conflicts,
+		// several database reductions, activity rescaling. No reference verdict: a Sat answer is judged by
+		// its model, an Unsat answer by its certificate (replayed by the watched-literal reference checker)
+		n := r.Range(110, 190)
+		t := world.TaskSpec{Kind: "cnf", N: n, Clauses: randKSAT(r, n, int(float64(n)*(4.15+0.2*r.Float())), 3, 3), Route: "slicenb", Cert: true, Cap: 8, Note: "soak"}
+		w.Tasks = []world.TaskSpec{t}
+		schedSingle(r, w)
+		return
+	}
 	maxN := 14
 	if big && r.Bool(0.3) {
 		maxN = 16
